@@ -8,9 +8,11 @@ the goroutine blocks or returns); the driver expands a macro step into the model
 * `A<a>:<id>` — `Accept` call `a` for secret `id`, up to its `select` → `wait` | `fail`
 * `H<h>:<rnd>:<cert>` — client hello of connection `h` → `shown:<id>` | `shown:random`
 * `V<h>` — certificate verification on both ends → `ok` | `drop`
-* `R<h>` — `chFromID` and the send on the channel → `sent` | `full` | `drop`
+* `R<h>` — `chFromID` → `ch` | `drop`
+* `S<h>` — the send on the channel (buffer 1); a waiting acceptor then receives and returns →
+  `sent:conn:<h>` | `sent:lost` (the channel's acceptor has already returned) | `full`
 * `T<h>` — the sender's 5 s context expires → `drop` | `-`
-* `W<a>` — the acceptor runs on: receive, deferred removals → `conn:<h>` | `blocked` | `-`
+* `W<a>` — the acceptor is given time to run → `blocked` | `conn:<h>` | `-`
 * `X<a>` — `ctx.Done()` → `cancelled` | `-`
 
 Each answer is followed by the registered secrets: `<answer>/<certs>/<chans>` (ids joined by `.`). -/
@@ -22,6 +24,7 @@ inductive MOp
   | hello (h rnd cert : Nat)
   | verify (h : Nat)
   | route (h : Nat)
+  | send (h : Nat)
   | timeout (h : Nat)
   | wait (a : Nat)
   | cancel (a : Nat)
@@ -33,6 +36,7 @@ def parseMOp (s : String) : Option MOp :=
   | "H", [h, r, c] => do some (.hello (← h.toNat?) (← r.toNat?) (← c.toNat?))
   | "V", [h] => do some (.verify (← h.toNat?))
   | "R", [h] => do some (.route (← h.toNat?))
+  | "S", [h] => do some (.send (← h.toNat?))
   | "T", [h] => do some (.timeout (← h.toNat?))
   | "W", [a] => do some (.wait (← a.toNat?))
   | "X", [a] => do some (.cancel (← a.toNat?))
@@ -73,11 +77,25 @@ def macroStep (s : St) : MOp → St × String
   | .route h =>
     match s.hs h with
     | some ⟨_, _, .route⟩ =>
-      let s' := step (step s (.hsStep h)) (.hsStep h)
+      let s' := step s (.hsStep h)
       (s', match s'.hs h with
-        | some ⟨_, _, .delivered _⟩ => "sent"
-        | some ⟨_, _, .send _⟩ => "full"
+        | some ⟨_, _, .send _⟩ => "ch"
         | _ => "drop")
+    | _ => (s, "-")
+  | .send h =>
+    match s.hs h with
+    | some ⟨_, _, .send _⟩ =>
+      let s' := step s (.hsStep h)
+      match s'.hs h with
+      | some ⟨_, _, .delivered ch⟩ =>
+        (match s'.apc ch with
+         | some .waiting =>
+           let s'' := accRun s' ch
+           (s'', match s''.apc ch with
+             | some (.done (some c)) => s!"sent:conn:{c}"
+             | _ => "?")
+         | _ => (s', "sent:lost"))
+      | _ => (s', "full")
     | _ => (s, "-")
   | .timeout h =>
     match s.hs h with
